@@ -143,9 +143,8 @@ class Connection:
     # ---- objects
     def add(self, obj):
         oid = self.storage.new_oid()
-        obj._p_jar, obj._p_oid = self, oid
-        self.cache[oid] = obj
-        self.added[oid] = obj
+        obj._p_jar, obj._p_oid = self, oid     # enters the cache when it is first written (as in ZODB):
+        self.added[oid] = obj                  # until then it has no record and must not become a ghost
         self.registered.append(obj)
         return oid
 
@@ -161,14 +160,16 @@ class Connection:
         """Every object this connection knows by oid (ghost or not)."""
         return [o for _, o in self.cache.items()]
 
-    def sweep(self, how="minimize"):
+    def sweep(self, how="minimize", only=None):
         """Evict whatever may be evicted: cache.minimize(), or _p_deactivate()
-        on every cached object (both refuse changed and pinned objects)."""
-        if how == "minimize":
+        on every cached object [that satisfies `only`] (both refuse changed
+        and pinned objects)."""
+        if how == "minimize" and only is None:
             self.cache.minimize()
         else:
             for o in self.nodes():
-                o._p_deactivate()
+                if only is None or only(o):
+                    o._p_deactivate()
 
     # ---- pickling with persistent references
     def _loads(self, data, resolver=None):
@@ -230,6 +231,8 @@ class Connection:
                 if not (oid in self.added or obj._p_changed or any(o is obj for o in self.creating)):
                     continue        # registered but not changed any more: legal, nothing to write
                 seen.add(oid)
+                if oid in self.added and self.cache.get(oid) is None:
+                    self.cache[oid] = obj
                 data = self._dumps(obj.__getstate__(), todo)
                 cur = st.current_tid(oid)
                 if cur is not None and cur != u64(obj._p_serial):
